@@ -72,20 +72,16 @@ theorem conclude_spec (c : CCtx) (index : Nat) (pie : Bool) (pb : Brk) (child : 
       unfold concludeKid at h
       dsimp only at h
       split at h
-      · -- AttributeError
-        simp only [Prod.mk.injEq, Option.some.injEq] at h
-        obtain ⟨rfl, rfl⟩ := h
-        trivial
       · -- an earlier break
         rename_i kept r' hearlier
         simp only [Prod.mk.injEq, Option.some.injEq] at h
         obtain ⟨rfl, rfl⟩ := h
-        have hfound : findEarlierList c.inColumn s.newChildren = .found kept r' := by
+        have hfound : findEarlierList c.inColumn s.newChildren = some (kept, r') := by
           split at hearlier
           · exact hearlier
           · cases hearlier
         obtain ⟨m, sub', rfl, hm, hlines, hpos⟩ :=
-          (findEarlierList_spec c.inColumn _ _ _ _ hgB hinv).2 kept r' hfound
+          findEarlierList_spec c.inColumn _ _ _ _ hgB hinv kept r' hfound
         have h0 : 0 < B.length := by omega
         refine ⟨m, rfl, rfl, ?_, ?_⟩
         · simp only [subSkipOf_node]
@@ -111,7 +107,6 @@ theorem conclude_spec (c : CCtx) (index : Nat) (pie : Bool) (pb : Brk) (child : 
       unfold concludeKid at h
       dsimp only at h
       split at h
-      · simp at h
       · simp at h
       · split at h
         · simp at h
@@ -470,11 +465,9 @@ theorem colsLoop_group_spec (env : ColEnv) (kids : List ColBox) (a len : Nat)
     · intro h; simp at h
     · rename_i herr
       have hr := hreal herr
-      have hfin : ∀ s' : ColsState, (if (trialLoop env c a 0 (init.y + collapseMargin init.adj)
-          (c.pageBottom - (init.y + collapseMargin init.adj) - obs) cs.count init.skip
-          (cs.balance || decide (a < last)) init.nextPage).stop = true then s'
+      have hfin : ∀ (b : Bool) (s' : ColsState), (if b = true then s'
           else colsLoop env c cs hd obs last fuel [] s') = s' := by
-        intro s'; split
+        intro b s'; split
         · rfl
         · simp [colsLoop]
       rw [hfin]
